@@ -26,7 +26,8 @@ def jobs(tier):
     out = [{"name": "scenario", "kind": "scenario"},
            {"name": "coloring-constraints", "kind": "coloring"},
            {"name": "coloring-generate", "kind": "coloring_generate"}]
-    grids = [(2, 2), (2, 3), (3, 3)] + ([(3, 4)] if tier == "thorough" else [])
+    # (11, 2) and (2, 11): two-digit coordinates (v_10_0 sorts before v_9_0 as a string)
+    grids = [(2, 2), (2, 3), (3, 3), (11, 2), (2, 11)] + ([(3, 4)] if tier == "thorough" else [])
     for r, c in grids:
         out.append({"name": "ising-%dx%d" % (r, c), "kind": "ising", "rows": r, "cols": c})
     return out
